@@ -14,7 +14,9 @@ use serde_json::json;
 const BUCKETS: &[&str] = &["bucket-one", "second.bucket", "b3b"];
 // (no key is a directory prefix of another; siblings of a nested key continue its first component with characters that
 // sort below and above '/': key order is by the whole string, not component by component)
-const KEYS: &[&str] = &["a.txt", "b/c", "b/d", "e/f/g", "k1", "zz top", "b-1", "b.txt", "b0", "e/f-1"];
+/// (the last key is long - 201 bytes in one path component, legal for S3 and for the file system - so that whatever the
+/// backend derives from a key (side-file names) is exercised at a length where it no longer fits trivially)
+const KEYS: &[&str] = &["a.txt", "b/c", "b/d", "e/f/g", "k1", "zz top", "b-1", "b.txt", "b0", "e/f-1", "m01234567890123456789012345678901234567890123456789012345678901234567890123456789012345678901234567890123456789012345678901234567890123456789012345678901234567890123456789012345678901234567890123456789"];
 const PART_MIN: usize = 5 * 1024 * 1024;
 
 #[derive(Debug, Clone, PartialEq)]
@@ -612,7 +614,7 @@ fn history(c: &mut Case<'_>) -> CaseResult {
 }
 
 pub fn run(r: &mut Runner) {
-    r.rule = "histories of 4..44 (thorough ..164) operations (create/delete bucket, put with/without metadata, get with every Range form, head, delete, batch delete, copy, list v1/v2 with prefix and start-after/marker, multipart create / upload part (non-final parts 5 MiB + d, any order) / complete / abort, by two identities) over 3 buckets and 6 keys (none a directory prefix of another), driven through aws-sdk-s3 -> S3Service(SimpleAuth, FileSystem) against an in-memory reference store, compared after every step and in a final full scan. Non-trivial: a key written twice, copied then overwritten, ranged read after a write, or a completed multipart; distinct by the sequence of (operation kind, key index).".into();
+    r.rule = "histories of 4..44 (thorough ..164) operations (create/delete bucket, put with/without metadata, get with every Range form, head, delete, batch delete, copy, list v1/v2 with prefix and start-after/marker, multipart create / upload part (non-final parts 5 MiB + d, any order) / complete / abort, by two identities) over 3 buckets and 11 keys (none a directory prefix of another; siblings around '/', one key of 201 bytes), driven through aws-sdk-s3 -> S3Service(SimpleAuth, FileSystem) against an in-memory reference store, compared after every step and in a final full scan. Non-trivial: a key written twice, copied then overwritten, ranged read after a write, or a completed multipart; distinct by the sequence of (operation kind, key index).".into();
     r.assumptions = vec![
         "error codes, deleting a missing key, deleting a non-empty bucket, writes into missing buckets, max-keys / delimiters, parts below 5 MiB and non-consecutive part numbers are don't-care".into(),
         "S3's default metadata directive COPY for CopyObject".into(),
@@ -660,6 +662,22 @@ pub fn run(r: &mut Runner) {
             }
         })
         .map_err(|e| c.fail("panic:s3.rs", e))
+    });
+    r.probe("long-key-side-files", |c| {
+        // a key of 201 bytes in one path component with user metadata: the side file names no longer fit a file name
+        let env = FsEnv::new();
+        let key = format!("m{}", "0123456789".repeat(20));
+        block_on(async {
+            env.client_a.create_bucket().bucket("bucket-one").send().await.map_err(|e| format!("{e:?}"))?;
+            env.client_a.put_object().bucket("bucket-one").key(&key).metadata("color", "red").body(ByteStream::from_static(b"v1")).send().await.map_err(|e| format!("PutObject with metadata on a {}-byte key failed: {:?}", key.len(), err_status(&e)))?;
+            let h = env.client_a.head_object().bucket("bucket-one").key(&key).send().await.map_err(|e| format!("{:?}", err_status(&e)))?;
+            if h.metadata().and_then(|m| m.get("color")).map(String::as_str) != Some("red") {
+                return Err(format!("metadata read back as {:?}", h.metadata()));
+            }
+            env.client_a.create_multipart_upload().bucket("bucket-one").key(&key).metadata("color", "blue").send().await.map_err(|e| format!("CreateMultipartUpload with metadata on a {}-byte key failed: {:?}", key.len(), err_status(&e)))?;
+            Ok(())
+        })
+        .map_err(|e| c.fail("long-key-side-files", e))
     });
     r.max_shrink = Some(150);
     r.search("histories", r.scale(3_000, 60_000), 4096, history);
